@@ -284,6 +284,10 @@ def run_playback(work, build, h, rpath):
         # a native run that does not terminate is a reproduced hang
         return True, "native playback did not terminate within 1800 s (hang reproduced)"
     out = p.stdout
+    if "Not enough det vals found" in out:
+        # the native run needed more symbolic values than the counterexample recorded: it took another path than the
+        # solver's trace (e.g. the file is replayed on a different tree) -- the counterexample is NOT reproduced
+        return False, out
     if re.search(r"test result: FAILED", out) or re.search(r"panicked at", out):
         return True, out
     if re.search(r"test result: ok\. 1 passed", out):
